@@ -44,12 +44,22 @@ class SymCOO:
 
     def __init__(self, arg, shape=None, **kw):
         data, (row, col) = arg
-        if not (isinstance(data, PA) and isinstance(row, PA) and isinstance(col, PA)) or shape is None:
+        if not (isinstance(data, PA) and isinstance(row, PA) and isinstance(col, PA)):
             raise px.Unsupported('coo_matrix arguments of this form')
         self.data, self.row, self.col = data, row, col
+        L = data.length()
+        if shape is None:
+            # scipy's documented shape inference: (max(row) + 1, max(col) + 1); "cannot infer dimensions from zero sized index arrays"
+            _require(b_and(i_lt(0, row.length()), i_lt(0, col.length())), 'coo_matrix: cannot infer dimensions from zero sized index arrays')
+            dims = []
+            for ix in (row, col):
+                m = -1
+                for t in range(ix.data.shape[0]):
+                    m = ite(b_and(i_lt(t, ix.length()), i_lt(m, ix.data[t])), ix.data[t], m, 'i')
+                dims.append(SInt(c14.i_add(m, 1), ix.data.shape[0] + 1 if ix.ecap is None else ix.ecap + 1))
+            shape = tuple(dims)
         self.shape = tuple(shape)
         n0, n1 = raw(self.shape[0]), raw(self.shape[1])
-        L = data.length()
         _require(b_and(i_eq(row.length(), L), i_eq(col.length(), L)), 'coo_matrix: row, column, and data arrays must be 1-D and have the same length')
         cap = data.data.shape[0]
         ok = []
@@ -185,8 +195,11 @@ def _asm_meta(h, cs, what):
               'that the element blocks handed to the assembler are the element Hessians (O2-O4 / JAX autodiff trusted)')
 
 
+TRI1X = ([[0.0, 0.0], [1.0, 0.0], [0.0, 1.0], [1.0, 1.0]], [[0, 1, 2]])      # one triangle and a node (the last) that belongs to no element
+
+
 def _asm_cfgs():
-    return {'tri1_f2': Cfg('tri1_f2', *TRI1, 2, extra=False), 'tri2_f2': Cfg('tri2_f2', *TRI2, 2, extra=False), 'tri2b_f2': Cfg('tri2b_f2', *TRI2B, 2, extra=False)}
+    return {'tri1x_f2': Cfg('tri1x_f2', *TRI1X, 2, extra=False), 'tri1_f2': Cfg('tri1_f2', *TRI1, 2, extra=False), 'tri2_f2': Cfg('tri2_f2', *TRI2, 2, extra=False), 'tri2b_f2': Cfg('tri2b_f2', *TRI2B, 2, extra=False)}
 
 
 @obligation(P, 'O1.assembly[tri1_f2]', cap=400)
@@ -195,6 +208,15 @@ def o1_small(h):
     (symmetric) block values, one query per goal"""
     c = _asm_cfgs()['tri1_f2']
     _asm_meta(h, [c], 'kValues: 36 free reals')
+    px.run_px(h, c.name, make_assembly_harness(c, ASM_GOALS[:3]), cap=120, order=('lra2', 'core'), expect_goals=ASM_GOALS[:3])
+
+
+@obligation(P, 'O1.assembly[tri1x_f2]', cap=400)
+def o1_unattached(h):
+    """one triangle plus a node that belongs to no element, 2 fields (8 dofs): the assembled matrix still is nUnknowns x nUnknowns
+    (rows / columns of the unattached unknowns are empty) and equals the block sum — all masks, all (symmetric) block values"""
+    c = _asm_cfgs()['tri1x_f2']
+    _asm_meta(h, [c], 'kValues: 36 free reals; node 3 is in no element, so the largest COO index can be smaller than nUnknowns - 1')
     px.run_px(h, c.name, make_assembly_harness(c, ASM_GOALS[:3]), cap=120, order=('lra2', 'core'), expect_goals=ASM_GOALS[:3])
 
 
